@@ -728,6 +728,34 @@ def build_cases(rng, tier):
   add("QDense[pruned_po2]", {"cls": "QDense", "kq": "pruned_po2", "bq": "fx"},
       _pruned_case(K, QDense, pruned_po2, fx, set_w, xin))
   add("Dense+QDense", {"cls": "Dense+QDense"}, mk_plain_dense())
+
+  # quantizer-owning layers outside the library's own class lists: the export keys on the layer
+  # HAVING get_quantizers(), not on its class name — QScaleShift (qmac.py) and user subclasses
+  def mk_scaleshift(kq, bq):
+    def f():
+      from qkeras.qmac import QScaleShift
+      x = inp = K.Input((4,))
+      y = QDense(3, kernel_quantizer=WQ["fx"](), bias_quantizer=BQ["fx"](), name="d")(x)
+      y = QScaleShift(weight_quantizer=WQ[kq](), bias_quantizer=BQ[bq](), name="ss")(y)
+      m = K.Model(inp, y)
+      set_w(m)
+      return m, xin((4,))
+    return f
+
+  def mk_subclass(kq, bq):
+    def f():
+      MyDense, MyConv = _user_subclasses(K, QDense, QConv2D)
+      x = inp = K.Input((4, 4, 1))
+      y = MyConv(2, 2, kernel_quantizer=WQ[kq](), bias_quantizer=BQ[bq](), name="myc")(x)
+      y = K.layers.Flatten(name="fl")(y)
+      y = MyDense(2, kernel_quantizer=WQ[kq](), bias_quantizer=BQ[bq](), name="myd")(y)
+      m = K.Model(inp, y)
+      set_w(m)
+      return m, xin((4, 4, 1))
+    return f
+  for kq, bq in [("fx", "fx"), ("po2", "fxn")]:
+    add("QScaleShift[%s,%s]" % (kq, bq), {"cls": "QScaleShift", "kq": kq, "bq": bq}, mk_scaleshift(kq, bq))
+    add("subclass[%s,%s]" % (kq, bq), {"cls": "user-subclass", "kq": kq, "bq": bq}, mk_subclass(kq, bq))
   for kq, bq in [("fx", "fx"), ("po2", "po2"), ("apo2", "fx"), ("ter1", "fxn")]:
     add("QConv1D[%s,%s]" % (kq, bq), {"cls": "QConv1D", "kq": kq, "bq": bq}, mk_conv1d(kq, bq))
   for kq, bq, bnk in [("fx", "fx", None), ("apo2", "fx", None), ("po2", "po2", None), ("bin", "fx", None),
@@ -784,6 +812,23 @@ def build_cases(rng, tier):
     else:
       add("r%d:QConv1D[%s,%s]" % (j, kq, bq), {"cls": "QConv1D", "kq": kq, "bq": bq}, mk_conv1d(kq, bq))
   return cases
+
+
+_USER_SUBCLASSES = []
+
+
+def _user_subclasses(K, QDense, QConv2D):
+  """user layers derived from quantized layers (registered with Keras, as a user has to for clone/save)"""
+  if not _USER_SUBCLASSES:
+    @K.utils.register_keras_serializable(package="qkv")
+    class MyDense(QDense):
+      pass
+
+    @K.utils.register_keras_serializable(package="qkv")
+    class MyConv(QConv2D):
+      pass
+    _USER_SUBCLASSES.extend([MyDense, MyConv])
+  return _USER_SUBCLASSES
 
 
 def _pruned_case(K, QDense, pruned_po2, fx, set_w, xin):
